@@ -68,7 +68,7 @@ def resolve(name):
 
 
 def plan(tier):
-    return {"runs": 420} if tier == "quick" else {"runs": 10000000, "budget": 1200.0}
+    return {"runs": 1200} if tier == "quick" else {"runs": 10000000, "budget": 1200.0}
 
 
 def mode_of(seed, idx):
@@ -258,15 +258,16 @@ def gen_local(seed, tier):
             prog.append({"op": "basic_config", "step": v})
         elif r < 0.62 or not live:
             cfg = {}
-            if rng.random() < 0.45:
+            bare_default = rng.random() < 0.35          # Calculator() / Calculator(_config={}) : everything by default
+            if not bare_default and rng.random() < 0.45:
                 cfg["max_calc_step_size_feet"] = gen.pick(rng, [1.0, 2.0, 4.0, 8.0])
             for k, vals in (("cGravityConstant", [-32.17405, -25.0, -40.0]), ("cZeroFindingAccuracy", [5e-6, 1e-4]),
                             ("cMaxIterations", [20, 10, 40]), ("cMinimumVelocity", [50.0, 800.0, 1500.0]),
                             ("cMaximumDrop", [-15000.0, -5.0, -50.0]), ("cMinimumAltitude", [-1410.748, 0.0]),
                             ("chart_resolution", [0.2, 1.0])):
-                if rng.random() < 0.25:
+                if not bare_default and rng.random() < 0.25:
                     cfg[k] = gen.pick(rng, vals)
-            w["calcs"].append({"config": cfg if (cfg or rng.random() < 0.7) else None})
+            w["calcs"].append({"config": cfg if (cfg or rng.random() < 0.5) else None})
             cid = len(w["calcs"]) - 1
             prog.append({"op": "new_calc", "calc": cid})
             live.append(cid)
